@@ -411,6 +411,9 @@ def judgeImage (j : J) (op : String) (outs : List String) : J × List String :=
     let cands := rowPrefixStates j.prevSdb stmt
     let (first, probes) := splitProbes (outs.drop 1)
     let tabs := first.filterMap tableOf
+    -- a table of the recovered database that cannot be read at all
+    if damaged first then
+      (j, [vio j "db:image-table-unreadable" s!"op=[{short}] got=[{((" | ".intercalate (first.filter fun l => !(l.splitOn " rows").length == 2)).take 300).toString}]"]) else
     -- every table: unchanged tables equal the state before; the statement's table equals one prefix state
     let target : Bytes := match stmt with | .insert t _ _ => t | .update t _ _ => t | .delete t _ => t | _ => []
     let bad := tabs.filterMap fun (n, rows) =>
